@@ -230,6 +230,13 @@ impl<F: Read + Seek> Seek for Stream<F> {
 
 impl<F: Read + Write + Seek> Write for Stream<F> {
     fn write(&mut self, buf: &[u8]) -> io::Result<usize> {
+        if self.current_position().checked_add(buf.len() as u64).is_none() {
+            invalid_input!(
+                "Cannot write {} bytes at position {}",
+                buf.len(),
+                self.current_position()
+            );
+        }
         let num_bytes_written = match self.buffer.write_bytes(buf) {
             Some(count) => count,
             None => {
@@ -279,15 +286,30 @@ impl<F: Read + Write + Seek> Flusher<F> for FlushBuffer {
             stream.buf_offset_from_start,
             stream.buffer.filled_slice(),
         )?;
-        debug_assert_eq!(
-            minialloc.read().unwrap().dir_entry(stream.stream_id).stream_len,
-            stream.total_len
-        );
+        // Normally these already agree, but another `Stream` for the same
+        // object may have resized it in the meantime; the directory entry is
+        // what the file says.
+        stream.total_len =
+            minialloc.read().unwrap().dir_entry(stream.stream_id).stream_len;
         Ok(())
     }
 }
 
 //===========================================================================//
+
+/// Returns the start sector and length of the stream with the given ID, or
+/// an error if that directory entry is not a stream (any more), for example
+/// because the stream was removed while a `Stream` for it was still open.
+fn stream_chain_info<F>(
+    minialloc: &MiniAllocator<F>,
+    stream_id: u32,
+) -> io::Result<(u32, u64)> {
+    let dir_entry = minialloc.dir_entry(stream_id);
+    if dir_entry.obj_type != ObjType::Stream {
+        not_found!("Stream no longer exists");
+    }
+    Ok((dir_entry.start_sector, dir_entry.stream_len))
+}
 
 fn read_data_from_stream<F: Read + Seek>(
     minialloc: &mut MiniAllocator<F>,
@@ -295,11 +317,7 @@ fn read_data_from_stream<F: Read + Seek>(
     buf_offset_from_start: u64,
     buf: &mut [u8],
 ) -> io::Result<usize> {
-    let (start_sector, stream_len) = {
-        let dir_entry = minialloc.dir_entry(stream_id);
-        debug_assert_eq!(dir_entry.obj_type, ObjType::Stream);
-        (dir_entry.start_sector, dir_entry.stream_len)
-    };
+    let (start_sector, stream_len) = stream_chain_info(minialloc, stream_id)?;
     let num_bytes = if buf_offset_from_start >= stream_len {
         0
     } else {
@@ -331,18 +349,27 @@ fn write_data_to_stream<F: Read + Write + Seek>(
     buf_offset_from_start: u64,
     buf: &[u8],
 ) -> io::Result<()> {
-    let (old_start_sector, old_stream_len) = {
-        let dir_entry = minialloc.dir_entry(stream_id);
-        debug_assert_eq!(dir_entry.obj_type, ObjType::Stream);
-        (dir_entry.start_sector, dir_entry.stream_len)
-    };
-    debug_assert!(buf_offset_from_start <= old_stream_len);
+    let (old_start_sector, old_stream_len) =
+        stream_chain_info(minialloc, stream_id)?;
+    if buf_offset_from_start > old_stream_len {
+        invalid_input!(
+            "Cannot write at offset {}, because stream length is now only {} \
+             bytes",
+            buf_offset_from_start,
+            old_stream_len
+        );
+    }
     let new_stream_len =
         old_stream_len.max(buf_offset_from_start + buf.len() as u64);
     let new_start_sector = if old_start_sector == consts::END_OF_CHAIN {
         // Case 1: The stream has no existing chain.  The stream is empty, and
         // we are writing at the start.
-        debug_assert_eq!(old_stream_len, 0);
+        if old_stream_len != 0 {
+            invalid_data!(
+                "Malformed stream (length is {}, but it has no sectors)",
+                old_stream_len
+            );
+        }
         debug_assert_eq!(buf_offset_from_start, 0);
         if new_stream_len < consts::MINI_STREAM_CUTOFF as u64 {
             // Case 1a: The data we're writing is small enough that it
@@ -426,15 +453,17 @@ fn resize_stream<F: Read + Write + Seek>(
     stream_id: u32,
     new_stream_len: u64,
 ) -> io::Result<()> {
-    let (old_start_sector, old_stream_len) = {
-        let dir_entry = minialloc.dir_entry(stream_id);
-        debug_assert_eq!(dir_entry.obj_type, ObjType::Stream);
-        (dir_entry.start_sector, dir_entry.stream_len)
-    };
+    let (old_start_sector, old_stream_len) =
+        stream_chain_info(minialloc, stream_id)?;
     let new_start_sector = if old_start_sector == consts::END_OF_CHAIN {
         // Case 1: The stream has no existing chain.  We will allocate a new
         // chain that is all zeroes.
-        debug_assert_eq!(old_stream_len, 0);
+        if old_stream_len != 0 {
+            invalid_data!(
+                "Malformed stream (length is {}, but it has no sectors)",
+                old_stream_len
+            );
+        }
         if new_stream_len < consts::MINI_STREAM_CUTOFF as u64 {
             // Case 1a: The new length is small enough that it should be placed
             // into a new mini chain.
